@@ -275,7 +275,7 @@ def ast_type_to_ir(node):
     return S.named(node.name.value)
 
 
-def variables_for(rng, case, document, op_name):
+def variables_for(rng, case, document, op_name, p_omit=0.25):
     """JSON values fitted to the declared variable types of the (library-parsed) operation."""
     from py_gql.lang import ast as A
 
@@ -291,6 +291,8 @@ def variables_for(rng, case, document, op_name):
         return out
     for vd in op.variable_definitions:
         t = ast_type_to_ir(vd.type)
+        if t[0] != "nonnull" and vd.default_value is None and rng.random() < p_omit:
+            continue        # a nullable variable without default may be left out of the payload
         try:
             out[vd.variable.name.value] = refcoerce.to_json_value(case.sg.input_value_for(t, allow_null=(t[0] != "nonnull")))
         except Exception:
@@ -336,6 +338,20 @@ def validate_and_maybe_execute(ctx, rng, case, text, cls, doc_ir=None, op_ir=Non
         named = [o for o in ops if (o.name.value if o.name else None) == op_ir.name]
         if named:
             target = named[0]
+    elif cls.startswith("rulebreak:") and len(ops) > 1:
+        # a labelled violation that validation lets through: every operation of the document has to be
+        # executable, with every variable supplied and with the nullable ones left out
+        for t2 in ops:
+            for omit in (0.0, 1.0):
+                _execute_accepted(ctx, rng, case, text, cls, document, t2, None, None, amb, dict(witness), omit)
+        return
+    _execute_accepted(ctx, rng, case, text, cls, document, target, doc_ir, op_ir, amb, witness, 0.25)
+
+
+def _execute_accepted(ctx, rng, case, text, cls, document, target, doc_ir, op_ir, amb, witness, p_omit):
+    import py_gql
+    from py_gql.execution import Executor
+
     if target.operation == "subscription":
         return
     op_name = target.name.value if target.name else None
@@ -348,7 +364,7 @@ def validate_and_maybe_execute(ctx, rng, case, text, cls, doc_ir=None, op_ir=Non
             if name not in variables and (t[0] == "nonnull" and d is S.UNSET):
                 variables[name] = refcoerce.to_json_value(case.sg.input_value_for(t, allow_null=False))
     else:
-        variables = variables_for(rng, case, document, op_name)
+        variables = variables_for(rng, case, document, op_name, p_omit)
     witness["variables"] = variables
     witness["operation_name"] = op_name
     root_type = {"query": case.ir.query, "mutation": case.ir.mutation}[target.operation]
@@ -416,11 +432,19 @@ def run(ctx):
                     d2 = g2.document()
                     validate_and_maybe_execute(ctx, rng, case, opgen.document_text(d2), "valid", d2, rng.choice(d2.operations), amb)
                 # labelled rule violations: validation must not raise (and accepted ones must execute)
-                for op_fn in rng.sample(rulebreak.OPERATORS, 8):
+                # operators that found few applicable documents so far in this shard get their turn first
+                ops_ = rng.sample(rulebreak.OPERATORS, len(rulebreak.OPERATORS))
+                ops_.sort(key=lambda f: ctx.counters["rulebreak_applied:" + f.__name__] >= 4)
+                tried = 0
+                for op_fn in ops_:
+                    if tried >= 8:
+                        break
                     if op_fn.__name__ == "type_definition_in_document":
                         continue
                     broken = rulebreak.apply_operator(rng, doc, case.ir, op_fn)
                     if broken is not None:
+                        tried += 1
+                        ctx.count("rulebreak_applied:" + op_fn.__name__)
                         validate_and_maybe_execute(ctx, rng, case, rulebreak.render(broken), "rulebreak:" + op_fn.__name__, None, None, amb)
                 for adv in ADVERSARIAL:
                     d2 = copy.deepcopy(doc)
